@@ -51,7 +51,7 @@ def doc(rng):
         for f in rng.sample(fields, rng.randint(1, len(fields))):
             lines.append('%s: %s' % (f, rng.choice(('GPL-2+', 'first line', 'x', ''))))
             for _ in range(rng.choice((0, 2, 3, 5))):
-                lines.append(rng.choice((' text line', ' .', ' .', '  verbatim', ' more words here', '\tTabbed', ' ..', ' . x', ' Note: see GPL-2', ' Copyright: 2001 quoted', '  k: v', '\tName : spaced', ' # hash')))
+                lines.append(rng.choice((' text line', ' .', ' .', '  verbatim', ' more words here', '\tTabbed', ' ..', ' . x', ' Note: see GPL-2', ' Copyright: 2001 quoted', '  k: v', '\tName : spaced', ' # hash', '  \xa0nbsp first', ' \u3000x')))
     return lines
 
 
